@@ -1,21 +1,30 @@
 """C13 — BufferQueue behaves as one flat character stream."""
 PROP = "C13"
 ENGINE = "bq"
-LEAN_TARGETS = ["H5V.Props.C13"]
-AUDIT_IMPORTS = ["H5V.Props.C13"]
+LEAN_TARGETS = ["H5V.Props.C13", "H5V.Props.C13Bytes"]
+AUDIT_IMPORTS = ["H5V.Props.C13", "H5V.Props.C13Bytes"]
 THEOREMS = ["H5V.Props.C13." + t for t in [
     "C13_peek", "C13_next", "C13_pop_except_from", "C13_eat", "pushBack_abs", "pushFront_abs",
-    "C13_reachable_inv", "C13_no_panic"]]
+    "C13_reachable_inv", "C13_no_panic",
+    # Props/C13Bytes.lean: the BYTE-level loop of `eat` (literal transcription: buffers_exhausted / consumed_from_last over
+    # the UTF-8 bytes, commit by pop_front with its char-boundary check) = the character-level model, for ALL patterns under
+    # the two comparators html5ever uses; never panics; witnesses that an arbitrary comparator can make it panic
+    "C13_utf8_ascii", "C13_utf8_nonascii", "C13_utf8_prefix_code", "C13_comparators_agree", "C13_eat_bytes_of_stepAgree",
+    "C13_eat_bytes_eq_chars_all", "C13_eat_bytes_eq_chars", "C13_eat_bytes_no_panic", "C13_eat_bytes_flat",
+    "C13_eat_bytes_tokenizer_verdict", "C13_keywords_ascii", "C13_witness_comparator_panics",
+    "C13_witness_comparator_disagrees"]]
 TRUSTED = [
     "Lean 4 kernel; axioms ⊆ {propext, Classical.choice, Quot.sound} (audited per run)",
     "hand-written model lean/H5V/Model/BufferQueue.lean of markup5ever/util/buffer_queue.rs + smallcharset.rs, "
     "tied by the `bq` correspondence (harness/src/engines/bq.rs vs h5vdriver) on the cases of this run",
-    "eat is modelled on characters; the Rust compares bytes — equal for ASCII patterns (validated, not proved)",
+    "eat: the character-level model is proved equal to the literal byte-level loop over the UTF-8 encoding "
+    "(C13_eat_bytes_eq_chars_all, core's String.utf8EncodeChar) for `==` and `eq_ignore_ascii_case`",
     "tendril operations used by BufferQueue (pop_front_char, unsafe_subtendril, pop_front) are covered by C11",
 ]
 ASSUMPTIONS = [
-    "eat patterns are ASCII and eq is == or eq_ignore_ascii_case (the only uses in html5ever/xml5ever); "
-    "arbitrary eq closures / non-ASCII patterns are outside the proved statement",
+    "eq is == or eq_ignore_ascii_case (the only uses in html5ever/xml5ever; any pattern): an arbitrary eq closure can make "
+    "the byte loop commit inside a character, where Tendril::pop_front panics (C13_witness_comparator_panics) - outside "
+    "the proved statement and outside what html5ever does",
 ]
 RULE = ("op sequences over a BufferQueue: exhaustive cover (every op × {empty queue, one buffer, pattern ending "
         "inside / at / beyond a buffer join, buffer emptied by the op}) + seeded random interleavings over random "
